@@ -72,6 +72,7 @@ type Options struct {
 	DelayPoints       map[string]bool
 	ScratchDir        string
 	RecordEvents      bool
+	RecordStores      bool // wrap every node's store with a call recorder (diagnostics)
 }
 
 type Event struct {
@@ -112,6 +113,8 @@ type Lab struct {
 	MaxHops  atomic.Int64
 	HopLimit atomic.Int64
 	Calls    sync.Map // method -> *atomic.Int64
+
+	storeLog storeLog
 }
 
 var sqliteInit sync.Once
@@ -264,6 +267,9 @@ func (l *Lab) Spawn(id uint64, be Backend) (*Member, error) {
 		kv = s
 		m.dir = dir
 		m.closeKV = func() { s.Close(); os.RemoveAll(dir) }
+	}
+	if l.opt.RecordStores {
+		kv = &recKV{KVProvider: kv, node: id, log: &l.storeLog}
 	}
 	m.Node = rchord.NewLocalNode(rchord.NodeConfig{
 		KVProvider:               kv,
@@ -727,6 +733,37 @@ func (p *netVNode) FinishLeave(stabilize bool, release bool) error {
 	return err
 }
 
+// KVTimeout bounds every proxied KV call the way the real RPC client does
+// (RemoteNode wraps each call in a context with a timeout): when it fires the
+// caller sees context.DeadlineExceeded while the call itself keeps running on
+// the target. Without it a KV request that a node forwards to its surrogate
+// while holding its own read locks deadlocks against that surrogate's Leave
+// (which holds the surrogate's lock and waits to import into the first node) —
+// in production that cycle is broken by the RPC timeout, too.
+var KVTimeout = time.Second
+
+func timed[T any](l *Lab, fn func() (T, error)) (T, error) {
+	type res struct {
+		v   T
+		err error
+	}
+	ch := make(chan res, 1)
+	go func() {
+		v, err := fn()
+		ch <- res{v, err}
+	}()
+	t := time.NewTimer(KVTimeout)
+	defer t.Stop()
+	select {
+	case r := <-ch:
+		return r.v, r.err
+	case <-t.C:
+		counter(&l.Calls, "kv-timeouts").Add(1)
+		var zero T
+		return zero, context.DeadlineExceeded
+	}
+}
+
 // KV: forwarded as the RPC server does (LocalNode methods; ownership is checked there)
 
 func (p *netVNode) Put(ctx context.Context, key, value []byte) error {
@@ -736,13 +773,14 @@ func (p *netVNode) Put(ctx context.Context, key, value []byte) error {
 		_ = p.node().Put(ctx, key, value)
 		return err
 	}
-	return p.node().Put(ctx, key, value)
+	_, err := timed(p.lab, func() (struct{}, error) { return struct{}{}, p.node().Put(ctx, key, value) })
+	return err
 }
 func (p *netVNode) Get(ctx context.Context, key []byte) ([]byte, error) {
 	if mode, err := p.call("Get"); mode != 0 {
 		return nil, err
 	}
-	return p.node().Get(ctx, key)
+	return timed(p.lab, func() ([]byte, error) { return p.node().Get(ctx, key) })
 }
 func (p *netVNode) Delete(ctx context.Context, key []byte) error {
 	if mode, err := p.call("Delete"); mode == FailBefore {
@@ -751,7 +789,8 @@ func (p *netVNode) Delete(ctx context.Context, key []byte) error {
 		_ = p.node().Delete(ctx, key)
 		return err
 	}
-	return p.node().Delete(ctx, key)
+	_, err := timed(p.lab, func() (struct{}, error) { return struct{}{}, p.node().Delete(ctx, key) })
+	return err
 }
 func (p *netVNode) PrefixAppend(ctx context.Context, prefix, child []byte) error {
 	if mode, err := p.call("PrefixAppend"); mode == FailBefore {
@@ -760,19 +799,20 @@ func (p *netVNode) PrefixAppend(ctx context.Context, prefix, child []byte) error
 		_ = p.node().PrefixAppend(ctx, prefix, child)
 		return err
 	}
-	return p.node().PrefixAppend(ctx, prefix, child)
+	_, err := timed(p.lab, func() (struct{}, error) { return struct{}{}, p.node().PrefixAppend(ctx, prefix, child) })
+	return err
 }
 func (p *netVNode) PrefixList(ctx context.Context, prefix []byte) ([][]byte, error) {
 	if mode, err := p.call("PrefixList"); mode != 0 {
 		return nil, err
 	}
-	return p.node().PrefixList(ctx, prefix)
+	return timed(p.lab, func() ([][]byte, error) { return p.node().PrefixList(ctx, prefix) })
 }
 func (p *netVNode) PrefixContains(ctx context.Context, prefix, child []byte) (bool, error) {
 	if mode, err := p.call("PrefixContains"); mode != 0 {
 		return false, err
 	}
-	return p.node().PrefixContains(ctx, prefix, child)
+	return timed(p.lab, func() (bool, error) { return p.node().PrefixContains(ctx, prefix, child) })
 }
 func (p *netVNode) PrefixRemove(ctx context.Context, prefix, child []byte) error {
 	if mode, err := p.call("PrefixRemove"); mode == FailBefore {
@@ -781,25 +821,27 @@ func (p *netVNode) PrefixRemove(ctx context.Context, prefix, child []byte) error
 		_ = p.node().PrefixRemove(ctx, prefix, child)
 		return err
 	}
-	return p.node().PrefixRemove(ctx, prefix, child)
+	_, err := timed(p.lab, func() (struct{}, error) { return struct{}{}, p.node().PrefixRemove(ctx, prefix, child) })
+	return err
 }
 func (p *netVNode) Acquire(ctx context.Context, lease []byte, ttl time.Duration) (uint64, error) {
 	if mode, err := p.call("Acquire"); mode != 0 {
 		return 0, err
 	}
-	return p.node().Acquire(ctx, lease, ttl)
+	return timed(p.lab, func() (uint64, error) { return p.node().Acquire(ctx, lease, ttl) })
 }
 func (p *netVNode) Renew(ctx context.Context, lease []byte, ttl time.Duration, prev uint64) (uint64, error) {
 	if mode, err := p.call("Renew"); mode != 0 {
 		return 0, err
 	}
-	return p.node().Renew(ctx, lease, ttl, prev)
+	return timed(p.lab, func() (uint64, error) { return p.node().Renew(ctx, lease, ttl, prev) })
 }
 func (p *netVNode) Release(ctx context.Context, lease []byte, token uint64) error {
 	if mode, err := p.call("Release"); mode != 0 {
 		return err
 	}
-	return p.node().Release(ctx, lease, token)
+	_, err := timed(p.lab, func() (struct{}, error) { return struct{}{}, p.node().Release(ctx, lease, token) })
+	return err
 }
 func (p *netVNode) Import(ctx context.Context, keys [][]byte, values []*protocol.KVTransfer) error {
 	mode, ferr := p.call("Import")
@@ -816,5 +858,5 @@ func (p *netVNode) ListKeys(ctx context.Context, prefix []byte) ([]*protocol.Key
 	if mode, err := p.call("ListKeys"); mode != 0 {
 		return nil, err
 	}
-	return p.node().ListKeys(ctx, prefix)
+	return timed(p.lab, func() ([]*protocol.KeyComposite, error) { return p.node().ListKeys(ctx, prefix) })
 }
